@@ -333,7 +333,7 @@ package @pkg@
   ensures (and (not (= result vnil)) (= (|F!types/@pkg@.filterSubscription!filterParent| result) {parent}))
 @*/
 /*@ func types/@pkg@.BuildController
-  props C20
+  props C20 C11
   theory @pkg@typed
   ghost perr : V := vnil
   at call(NewController) assert [an-untyped-controller-on-the-same-context-log-and-client] (and (= $0 {ctx}) (= $1 {log}) (= $2 {client}))
